@@ -14,6 +14,7 @@ name: dlist_append_b
 define: U_APPEND
 src: dlinked_list.c
 tier: B
+native: self
 backend: cadical
 unwind: 10
 unwind_thorough: 12
@@ -25,6 +26,7 @@ name: dlist_prepend_b
 define: U_PREPEND
 src: dlinked_list.c
 tier: B
+native: self
 backend: cadical
 unwind: 10
 unwind_thorough: 12
@@ -36,6 +38,7 @@ name: dlist_insert_at_front_half
 define: U_INSERT_AT, VL_MAXN=5, VL_MINN=1, U_PCOND=(p<=n/2&&p!=n-1&&p!=n)
 src: dlinked_list.c
 tier: B
+native: self
 backend: cadical
 unwind: 10
 unwind_thorough: 12
@@ -47,6 +50,7 @@ name: dlist_insert_at_grow
 define: U_INSERT_AT, VL_MAXN=5, VL_MINN=1, U_PCOND=(p>n)
 src: dlinked_list.c
 tier: B
+native: self
 backend: cadical
 unwind: 10
 unwind_thorough: 12
@@ -58,6 +62,7 @@ name: dlist_insert_at_last
 define: U_INSERT_AT, VL_MAXN=5, VL_MINN=2, U_PCOND=(p==n-1)
 src: dlinked_list.c
 tier: B
+native: self
 backend: cadical
 unwind: 10
 unwind_thorough: 12
@@ -69,6 +74,7 @@ name: dlist_insert_at_end
 define: U_INSERT_AT, VL_MAXN=5, VL_MINN=1, U_PCOND=(p==n)
 src: dlinked_list.c
 tier: B
+native: self
 backend: cadical
 unwind: 10
 unwind_thorough: 12
@@ -80,6 +86,7 @@ name: dlist_insert_at_back_half
 define: U_INSERT_AT, VL_MAXN=5, VL_FIXN=5, U_PCOND=(p>n/2&&p<n-1)
 src: dlinked_list.c
 tier: B
+native: self
 backend: cadical
 unwind: 10
 unwind_thorough: 12
@@ -91,6 +98,7 @@ name: dlist_insert_at_empty_le0
 define: U_INSERT_AT, VL_FIXN=0, U_PCOND=(p<=0)
 src: dlinked_list.c
 tier: B
+native: self
 backend: cadical
 unwind: 10
 unwind_thorough: 12
@@ -102,6 +110,7 @@ name: dlist_insert_at_empty_grow
 define: U_INSERT_AT, VL_FIXN=0, U_PCOND=(p>=1)
 src: dlinked_list.c
 tier: B
+native: self
 backend: cadical
 unwind: 10
 unwind_thorough: 12
@@ -113,6 +122,7 @@ name: dlist_remove_at
 define: U_REMOVE_AT
 src: dlinked_list.c
 tier: B
+native: self
 backend: cadical
 unwind: 10
 unwind_thorough: 12
@@ -124,6 +134,7 @@ name: dlist_get
 define: U_GET
 src: dlinked_list.c
 tier: B
+native: self
 backend: cadical
 unwind: 10
 unwind_thorough: 12
@@ -135,6 +146,7 @@ name: dlist_remove
 define: U_REMOVE
 src: dlinked_list.c
 tier: B
+native: self
 backend: cadical
 unwind: 10
 unwind_thorough: 12
@@ -146,6 +158,7 @@ name: dlist_index_find
 define: U_INDEX
 src: dlinked_list.c
 tier: B
+native: self
 backend: cadical
 unwind: 10
 unwind_thorough: 12
@@ -157,6 +170,7 @@ name: dlist_reverse
 define: U_REVERSE, VL_MINN=1
 src: dlinked_list.c
 tier: B
+native: self
 backend: cadical
 unwind: 10
 unwind_thorough: 12
@@ -168,6 +182,7 @@ name: dlist_reverse_empty
 define: U_REVERSE, VL_FIXN=0
 src: dlinked_list.c
 tier: B
+native: self
 backend: cadical
 unwind: 10
 unwind_thorough: 12
@@ -179,6 +194,7 @@ name: dlist_to_array
 define: U_TO_ARRAY
 src: dlinked_list.c
 tier: B
+native: self
 backend: cadical
 unwind: 10
 unwind_thorough: 12
@@ -190,6 +206,7 @@ name: dlist_iterate
 define: U_ITERATE
 src: dlinked_list.c, obj.c
 tier: B
+native: self
 backend: cadical
 unwind: 10
 unwind_thorough: 12
@@ -207,48 +224,40 @@ funcs: spif_dlinked_list_iterator, spif_dlinked_list_iterator_new, spif_dlinked_
 
 #define LT spif_dlinked_list_t
 #define IT spif_dlinked_list_item_t
-#define BUILD(self, m) VL_BUILD(self, LT, IT, SPIF_LISTCLASS_VAR(dlinked_list), VL_DL, m, vl_pick_len(), vl_data_list)
+#define BUILD(self, m) do { VL_INPUTS(vin, a); VL_BUILD(self, LT, IT, SPIF_LISTCLASS_VAR(dlinked_list), VL_DL, m, vin, vl_data_list); } while (0)
 #define CHECK(self, m, OP) VL_CHECK(self, IT, VL_DL, m, OP)
 
 vl_seq_t m;             /* ideal sequence */
-int w_n, w_idx, w_key, w_xnull;
-
-/* the element argument: NULL or a fresh velem with an arbitrary key */
-static spif_obj_t pick_obj(int *k, int allow_null)
-{
-    *k = nondet_int();
-    w_key = *k;
-    if (allow_null && nondet_bool()) { w_xnull = 1; *k = 0; return (spif_obj_t) NULL; }
-    return (spif_obj_t) vl_elem(*k);
-}
+vl_in_t vin;            /* the built container's inputs (VND: replayable natively) */
+int w_n, w_idx, w_key;
 
 void harness(void)
 {
     LT self;
     spif_obj_t x, r, want;
-    int k;
-    spif_listidx_t idx = nondet_int();
+    int k = (int) VND(int, k);      /* key of the element / probe argument (never NULL: C16's subject) */
+    spif_listidx_t idx = (spif_listidx_t) VND(int, idx);
     spif_bool_t b;
 
     BUILD(self, m);
     w_n = m.len; w_idx = idx;
 
 #ifdef U_APPEND
-    x = pick_obj(&k, 0);
+    x = (spif_obj_t) vl_elem(k); w_key = k;
     b = spif_dlinked_list_append(self, x);
     vl_ideal_append(&m, x, k);
     __CPROVER_assert(b == TRUE, "dlist append: returns TRUE");
     CHECK(self, m, "dlist append");
 #endif
 #ifdef U_PREPEND
-    x = pick_obj(&k, 0);
+    x = (spif_obj_t) vl_elem(k); w_key = k;
     b = spif_dlinked_list_prepend(self, x);
     vl_ideal_insert_pos(&m, 0, x, k);
     __CPROVER_assert(b == TRUE, "dlist prepend: returns TRUE");
     CHECK(self, m, "dlist prepend");
 #endif
 #ifdef U_INSERT_AT
-    x = pick_obj(&k, 0);
+    x = (spif_obj_t) vl_elem(k); w_key = k;
     __CPROVER_assume(idx <= m.len + VL_GROW);
     {
         long p = vl_norm(idx, m.len); long n = m.len;
@@ -280,7 +289,7 @@ void harness(void)
     CHECK(self, m, "dlist get");
 #endif
 #ifdef U_REMOVE
-    x = pick_obj(&k, 0);
+    x = (spif_obj_t) vl_elem(k); w_key = k;
     {
         int p = vl_ideal_index(&m, k);
         want = (p < 0) ? (spif_obj_t) NULL : m.e[p];
@@ -293,7 +302,7 @@ void harness(void)
     }
 #endif
 #ifdef U_INDEX
-    x = pick_obj(&k, 0);
+    x = (spif_obj_t) vl_elem(k); w_key = k;
     {
         int p = vl_ideal_index(&m, k);
         spif_listidx_t gi = spif_dlinked_list_index(self, x);
@@ -315,7 +324,7 @@ void harness(void)
     {
         spif_obj_t *a = spif_dlinked_list_to_array(self);
         int i;
-        __CPROVER_assert(m.len == 0 || __CPROVER_r_ok(a, sizeof(spif_obj_t) * m.len), "dlist to_array: result holds len slots");
+        __CPROVER_assert(m.len == 0 || VL_R_OK(a, sizeof(spif_obj_t) * m.len), "dlist to_array: result holds len slots");
         for (i = 0; i < VL_CAP && i < m.len; i++)
             __CPROVER_assert(a[i] == m.e[i], "dlist to_array: slot i is ideal element i");
         CHECK(self, m, "dlist to_array");
